@@ -38,16 +38,32 @@ fn restyle(text: &str, rng: &mut Rng, fault: bool) -> String {
     if crlf {
         out = out.replace("\r\n", "\n").replace('\n', "\r\n");
     }
+    // now and then: a byte order mark at the start of the file (three bytes, one UTF-16 unit, in
+    // front of everything), and comment lines holding characters that other tools treat as line
+    // breaks (U+2028, U+0085, form feed) - none of them is a line break for LSP
+    if rng.chance(1, 8) {
+        out.insert(0, '\u{feff}');
+    }
+    if rng.chance(1, 8) {
+        out.push_str("// sep\u{2028}arator ne\u{85}l ff\u{c} end\n");
+    }
     out
 }
 
 fn lsp_range(rp: &RefPos, s: usize, e: usize) -> Value {
+    if !rp.is_boundary(s) || !rp.is_boundary(e) {
+        // an ide-level range that is not on character boundaries has no position (never equal to an answer)
+        return json!({"not-on-a-character-boundary": [s, e]});
+    }
     let (sl, sc) = rp.to_pos(s);
     let (el, ec) = rp.to_pos(e);
     json!({"start": {"line": sl, "character": sc}, "end": {"line": el, "character": ec}})
 }
 
 fn lsp_pos(rp: &RefPos, o: usize) -> Value {
+    if !rp.is_boundary(o) {
+        return json!({"not-on-a-character-boundary": o});
+    }
     let (l, c) = rp.to_pos(o);
     json!({"line": l, "character": c})
 }
@@ -117,7 +133,7 @@ impl Property for C09 {
         "C09"
     }
     fn rule(&self) -> String {
-        "SEM programs (root + headers, plus seeded semantic faults in every file so that included files carry diagnostics) written to a scratch directory with per-file line structure: 0..5 extra leading lines (blank / comment / non-ASCII comment / multi-line block comment), LF or CRLF, non-ASCII text inside strings. Real server: didOpen(root), then definition and references at every identifier of the root, documentSymbol, foldingRange, documentLink, inlayHint(whole file), and the published diagnostics of every file; then a didChange of the root to the same bytes with a different line structure (line breaks after ';' and '}' turned into spaces: byte offsets stay, lines and columns move), after which the diagnostics the client holds for every file and the documentSymbol answer are compared again; then the first header is opened too (it is the root of its own workspace: diagnostics and outline compared), the former root is touched again, and definition/references at up to 80 identifiers, documentSymbol and inlayHint of the now open *included* document are compared. Oracle: the ide-level result for the same files (separate AnalysisHost) converted with the reference position mapper against the text of the file each location names; URIs and ranges must match exactly (reference lists and diagnostics as multisets). distinct = (seed, n); non-trivial = a definition or reference in another file whose line differs from the same offset's line in the requesting file, or a root diagnostic that had to be re-published with moved lines after the relayout".into()
+        "SEM programs (root + headers, plus seeded semantic faults in every file so that included files carry diagnostics) written to a scratch directory with per-file line structure: 0..5 extra leading lines (blank / comment / non-ASCII comment / multi-line block comment), LF or CRLF, non-ASCII text inside strings, sometimes a byte order mark in front and comment lines with U+2028/U+0085/form feed. Real server: didOpen(root), then definition and references at every identifier of the root, documentSymbol, foldingRange, documentLink, inlayHint(whole file), and the published diagnostics of every file; then a didChange of the root to the same bytes with a different line structure (line breaks after ';' and '}' turned into spaces: byte offsets stay, lines and columns move), after which the diagnostics the client holds for every file and the documentSymbol answer are compared again; then the first header is opened too (it is the root of its own workspace: diagnostics and outline compared), the former root is touched again, and definition/references at up to 80 identifiers, documentSymbol and inlayHint of the now open *included* document are compared. Oracle: the ide-level result for the same files (separate AnalysisHost) converted with the reference position mapper against the text of the file each location names; URIs and ranges must match exactly (reference lists and diagnostics as multisets); independently of that oracle, every definition range, read in the text of the file it names, must spell the identifier asked about. distinct = (seed, n); non-trivial = a definition or reference in another file whose line differs from the same offset's line in the requesting file, or a root diagnostic that had to be re-published with moved lines after the relayout".into()
     }
     fn assumptions(&self) -> Vec<String> {
         vec!["the ide-level analysis of the same files is taken as 'the span the analysis computed' (its own correctness is C05/C17's business); 'idle' = all spawned tasks ended (verif hook counters)".into()]
@@ -231,6 +247,24 @@ impl Property for C09 {
             let got = if r["result"].is_null() { None } else { Some(r["result"].clone()) };
             if r.get("error").is_some() || got != want_def {
                 return done(c, fail("C09.definition", format!("definition at root offset {at} ({:?}): server {}, expected {want_def:?}", &root_text[s..e], r)));
+            }
+            // independent of the ide-level result: the range sent to the client, read in the text of the
+            // file it names, spells the identifier that was asked about
+            if let Some(g) = &got {
+                let path = g["uri"].as_str().unwrap_or("").trim_start_matches("file://").to_string();
+                if let Some((_, ttext)) = sess.files.iter().find(|f| f.0 == path) {
+                    let trp = RefPos::new(ttext);
+                    let a0 = trp.from_pos(g["range"]["start"]["line"].as_u64().unwrap_or(0) as usize, g["range"]["start"]["character"].as_u64().unwrap_or(0) as usize);
+                    let a1 = trp.from_pos(g["range"]["end"]["line"].as_u64().unwrap_or(0) as usize, g["range"]["end"]["character"].as_u64().unwrap_or(0) as usize);
+                    let spelled = match (a0, a1) {
+                        (Some(x), Some(y)) if x <= y && ttext.is_char_boundary(x) && ttext.is_char_boundary(y) => Some(&ttext[x..y]),
+                        _ => None,
+                    };
+                    let asked = &root_text[s..e];
+                    if asked != "NAME" && spelled != Some(asked) {
+                        return done(c, fail("C09.definition-spelling", format!("definition of {asked:?} (root offset {at}): the range {} of {path} spells {spelled:?}", g["range"])));
+                    }
+                }
             }
             let want_refs = a.references(pos(sess.ws.root, at)).map(|v| {
                 sorted(
